@@ -3,7 +3,7 @@
 ID=$1; X=$2; T=${3:-quick}
 D=/verif/seeded/$ID/$X; [ -f $D/patch.diff ] || D=/tmp/wt/$ID/_seed/$X
 cd /repo && git apply $D/patch.diff || { echo "patch does not apply"; exit 3; }
-cd /verif && ./check $ID $T > /tmp/try_$ID_$X.log 2>&1; RC=$?
+cd /verif && ./check $ID $T > /tmp/try_${ID}_${X}.log 2>&1; RC=$?
 git -C /repo checkout -- .
-grep -E "VIOLATION|KNOWN-FINDING|INCONCLUSIVE|HARNESS-ERROR|UNREPRODUCED|$ID $T" /tmp/try_$ID_$X.log | cut -c1-400 | head -12
+grep -E "VIOLATION|KNOWN-FINDING|INCONCLUSIVE|HARNESS-ERROR|UNREPRODUCED|$ID $T" /tmp/try_${ID}_${X}.log | cut -c1-400 | head -12
 echo "exit=$RC"
